@@ -249,6 +249,20 @@ def h_sky(shape, origin, mode, m):
     m.require('round trip keeps scalar-ness and shape', back.isscalar == p.isscalar and np.shape(back.x) == np.shape(p.x))
 
 
+def h_separation_int_dtypes(m):
+    """separation between coordinates held in fixed-width integer arrays (outside the real-number model of the symbolic cases):
+    offsets that fit the dtype while their squares do not (executed)"""
+    from regions import PixCoord
+    for dt, off in (('int8', 12), ('int16', 200), ('int32', 50000), ('int64', 4_000_000_000), ('float32', 3.0e20)):
+        a = PixCoord(np.array([0, 1], dtype=dt), np.array([0, 2], dtype=dt))
+        b = PixCoord(np.array([off, 1], dtype=dt), np.array([0, 2], dtype=dt))
+        c = PixCoord(np.array([3, 1], dtype=dt), np.array([4, 2], dtype=dt))
+        for p_, q_, exp in ((b, a, [float(off), 0.0]), (c, a, [5.0, 0.0])):
+            got = np.asarray(p_.separation(q_), dtype=float)
+            m.require(f'separation of {dt} coordinates is the Euclidean distance (offset {off})',
+                      got.shape == (2,) and bool(np.all(np.isfinite(got))) and bool(np.allclose(got, exp, rtol=1e-6, atol=0)))
+
+
 def harnesses(tier):
     P = functools.partial
     q = tier == 'quick'
@@ -270,6 +284,7 @@ def harnesses(tier):
         for origin in (None, 0, 1):
             for mode in ((None, 'wcs') if q else (None, 'all', 'wcs')):
                 hs.append((f'sky/{shape}/origin={origin}/mode={mode}', P(h_sky, shape, origin, mode)))
+    hs.append(('separation/fixed-width-dtypes (executed)', h_separation_int_dtypes))
     return hs
 
 
@@ -288,7 +303,7 @@ META = {
     'outside_claim': ['real WCS numerics (astropy.wcs C code): the WCS is an opaque invertible stub; what is checked is '
                       'that x, y, origin and mode are forwarded unchanged in both directions',
                       'PixCoord.__eq__ tolerance semantics (np.allclose) is exercised in C16',
-                      'integer dtypes: elements are reals'],
+                      'integer dtypes: elements are reals (separation alone is also executed on int8..int64 and float32 arrays whose offsets fit the dtype while their squares do not); unsigned integer coordinate dtypes (numpy wraps negative differences)'],
     'stubs': ['regions.core.pixcoord.SkyCoord -> recording stand-in with from_pixel/to_pixel (opaque bijection WCS)',
               'astropy.units.Quantity.__new__: object dtype for symbolic payloads'],
     'assumptions': ['floats are interpreted as the real numbers they denote', 'angles are (cos, sin) pairs on the unit circle'],
